@@ -257,7 +257,7 @@ def compare(pid, rule, order, ins, obs, mod, known):
                                     note="replay: rerun the check with the recorded seed and tier; "
                                          "the case id is stable for a given seed")))
     rnd = random.Random(1)
-    samples = [dict(case=c, input=ins.get(c, ""), implementation=obs[c][:400]) for c in
+    samples = [dict(case=c, input=ins.get(c, "")[:2000], implementation=obs[c][:400]) for c in
                (order[:2] + rnd.sample(order, min(4, len(order))))]
     cov = dict(
         evaluations=len(order),
